@@ -260,7 +260,7 @@ def job_index(res, n, ni, cplx=False, asarr=0):
                     extra={'expect': {'ret': ni, 'outs': {str(len(c) - 3 if not cplx else 2 + 0): None} if False else {'2': [v for k in iv for v in [1.0 + k * w + q for q in range(w)]]}}, 'desc': desc + f' idx={iv}'})
         if st != 'ret' or m.ub_found:
             rr, mdl = m.check_model(z3.BoolVal(True)); cex(mdl, f'{desc}: {st} / UB {[(u[0], u[1]) for u in m.ub_found[:1]]} for in-range indices'); continue
-        out = outs[2][:ni * w]; low = m.low; bad = [z3.BoolVal(r != ni)]
+        out = outs[2][:ni * w]; low = m.low; bad = [z3.BoolVal(r != ni) if isinstance(r, int) else (bve(r, 32) != ni)]      # the count may be an expression pinned by the path
         X = {f'a{i}': z3.Real(f'a{i}') for i in range(n * w)}
         for j in range(ni):
             for q in range(w):
